@@ -331,10 +331,11 @@ fn fit<X, E>(x: X, method: &str) -> E {
         drop(x);
         panic!("C13-ORACLE: {method} returned a guard of type {got}, documented {want}");
     }
-    // same type: a plain move, spelled through transmute_copy because X and E are distinct type variables
-    let e = unsafe { core::mem::transmute_copy::<X, E>(&x) };
-    core::mem::forget(x);
-    e
+    // same type: a plain move, spelled through a pointer cast because X and E are distinct type variables
+    // (read out of a ManuallyDrop through a raw pointer: the source is never touched again, so the `&mut` inside
+    // the guard is moved, not duplicated — transmute_copy + forget is flagged by Miri's borrow tracking)
+    let x = core::mem::ManuallyDrop::new(x);
+    unsafe { core::ptr::read(&*x as *const X as *const E) }
 }
 
 macro_rules! then_impl {
